@@ -644,6 +644,20 @@ func (a *nfa) nfSlice(v ssa.Value, d int) bool {
 	}
 	a.busy[v] = true
 	defer delete(a.busy, v)
+	// whatever is stored into an element of this slice value must be in normal form too
+	if _, isAlloc := v.(*ssa.Alloc); !isAlloc {
+		for _, r := range refs(v) {
+			ia, ok := r.(*ssa.IndexAddr)
+			if !ok {
+				continue
+			}
+			for _, rr := range refs(ia) {
+				if st, ok := rr.(*ssa.Store); ok && st.Addr == ssa.Value(ia) && !a.NF(st.Val) {
+					return false
+				}
+			}
+		}
+	}
 	switch x := v.(type) {
 	case *ssa.Const:
 		return x.Value == nil
